@@ -91,6 +91,17 @@ def gen_cases(ctx):
                     c = mk_case(kind, rand_params(rng, kind), n, list(ts), list(cs), rand_vec(rng, n, "generic"), 1)
                     c["pool"] = pool
                     cases.append(c)
+    # registers at or above the OpenCL size threshold (lowered through the hook, so that the model can still be evaluated): in a
+    # build without the `gpu` feature the dispatch `size >= threshold && gpu_enabled` must fall through to the CPU paths
+    for kind in KINDS:
+        for n in (3, 4):
+            pl = placements(n, kind)
+            if not pl: continue
+            for thr in (10, 1):
+                ts, cs = rng.choice(pl)
+                c = mk_case(kind, rand_params(rng, kind), n, list(ts), list(cs), rand_vec(rng, n, "generic"), thr)
+                c["ocl"] = rng.choice([0, 2, n])
+                cases.append(c)
     real = [(9, 6), (10, 6)] if not ctx.thorough() else [(9, 20), (10, 20), (11, 10), (12, 6)]
     for n, cnt in real:
         for _ in range(cnt):
